@@ -79,7 +79,7 @@ def fsc_reference(a, b, dfreq):
     b = np.asarray(b, dtype=np.float64)
     fr = np.meshgrid(*[np.fft.fftfreq(n) for n in a.shape], indexing="ij")
     r = np.sqrt(sum(g ** 2 for g in fr))
-    lab = np.floor(r / dfreq + 1e-9).astype(int)
+    lab = np.floor(r / dfreq).astype(int)
     n = int(lab.max())
     A = np.fft.fftn(a)
     B = np.fft.fftn(b)
